@@ -334,3 +334,15 @@ m('ctrl-c12-helper', 'C12', 'track/sub.rs', '\t\t\tself.shared().is_marked_for_r
 m('ctrl-c07-order', 'C07', 'sound/static_sound/sound.rs',
   '\t\tif let Some(amount) = self.command_readers.seek_by.read() {\n\t\t\tself.seek_by(amount);\n\t\t}\n\t\tif let Some(position) = self.command_readers.seek_to.read() {\n\t\t\tself.seek_to(position);\n\t\t}',
   '\t\tlet seek_by = self.command_readers.seek_by.read();\n\t\tif let Some(amount) = seek_by {\n\t\t\tself.seek_by(amount);\n\t\t}\n\t\tlet seek_to = self.command_readers.seek_to.read();\n\t\tif let Some(position) = seek_to {\n\t\t\tself.seek_to(position);\n\t\t}', 'NONE', 'read results bound to locals first')
+
+m('ctrl-rename-mirror', 'C03', 'sound/static_sound/sound.rs', 'update_shared_playback_state', 'publish_playback_state', 'NONE', 'a private helper is renamed (all occurrences)', )
+m('ctrl-rename-readcmds', 'C09', 'sound/streaming/sound.rs', 'read_commands(', 'poll_commands(', 'NONE', 'a private helper is renamed (all occurrences)')
+m('ctrl-match-read', 'C07', 'clock.rs',
+  '\t\tif let Some(ticking) = self.command_readers.set_ticking.read() {\n\t\t\tself.set_ticking(ticking);\n\t\t}',
+  '\t\tmatch self.command_readers.set_ticking.read() {\n\t\t\tSome(ticking) => self.set_ticking(ticking),\n\t\t\tNone => {}\n\t\t}', 'NONE', 'if-let rewritten as match')
+m('ctrl-zip-ref', 'C02', 'track/main.rs',
+  'for (summed_out, sound_out) in out.iter_mut().zip(self.temp_buffer.iter().copied()) {\n\t\t\t\t*summed_out += sound_out;',
+  'for (summed_out, sound_out) in out.iter_mut().zip(self.temp_buffer.iter()) {\n\t\t\t\t*summed_out += *sound_out;', 'NONE', 'zip over references instead of copied()')
+m('ctrl-silence-helper', 'C03', 'sound/streaming/sound.rs',
+  '\t\tif !self.playback_state_manager.playback_state().is_advancing() {\n\t\t\tout.fill(Frame::ZERO);\n\t\t\treturn;\n\t\t}',
+  '\t\tif !self.playback_state_manager.playback_state().is_advancing() {\n\t\t\tfor frame in out.iter_mut() {\n\t\t\t\t*frame = Frame::ZERO;\n\t\t\t}\n\t\t\treturn;\n\t\t}', 'NONE', 'fill rewritten as an explicit loop (behaviour-preserving, other idiom)')
